@@ -1,11 +1,13 @@
 CONSTANT Tree <- StdTree4
-CONSTANT Families = {"machine", "loc", "allfib", "append", "long"}
+CONSTANT Families = {"machine", "loc", "allfib", "append", "long", "runs"}
 CONSTANT MaxLen = 4
 CONSTANT LocLen = 2
 CONSTANT Fibs = {1, 2, 3}
 CONSTANT AppMax = 3
 CONSTANT LongLens = {17, 18, 20, 23, 27, 32, 36, 40}
 CONSTANT LongSeeds = {1, 2, 3, 4, 5, 6, 7, 8, 9, 10}
+CONSTANT RunLens = {2, 3, 4, 5, 6, 7, 8, 9, 10, 11, 12, 13, 14, 15, 16, 17, 18, 20, 24, 31, 32, 33, 40}
+CONSTANT RunSeeds = {1, 2, 3, 5}
 INIT Init
 NEXT Next
 INVARIANT TypeOK
@@ -18,6 +20,7 @@ INVARIANT C16_MatchesSpecified
 INVARIANT C16_ConvIndependent
 INVARIANT C16_MemIndependent
 INVARIANT C16_IndexBookkeeping
+INVARIANT C16_RunsAreBlocks
 INVARIANT C16_AppendShape
 INVARIANT C16_AppendNoOverlap
 INVARIANT C16_AppendNothingLost
